@@ -97,6 +97,8 @@ def props_for(side: str, cls: str, rule: str) -> set:
             p.add("C06")
     if rule == "TRIVIA":
         p |= {"C04"}
+    if rule == "SHARED-LIST":
+        return {"C15", "C01"}
     if rule in ("R5",):
         p |= {"C01", "C07"}
     if rule == "RAISE":
@@ -158,6 +160,10 @@ def generic_checks(rep: OpReport, rec: PathRec, cls: str) -> None:  # noqa: PLR0
             # entry for that pop is SAFE *because of* this rule)
             extra = {"C07"} if rule == "R1" and "without an open checkpoint" in msg else None
             ob(rule if rule not in ("RAWSNAP", "STATEWRITE", "STACK") else "R2", _norm_note(msg), False, extra)
+    for rule, msg in rec.notes:
+        if rule == "SHAREDLIST":
+            what_ = _norm_note(msg)  # a matter of isolation between calls (C15) only: within one call nothing changes
+            rep.oblige({"C15"}, "SHARED-LIST", c, what_, False, Finding("SHARED-LIST", c, what_, f"{short(c)}: {what_}", detail))
     if not any(r == "R2" for r, _ in rec.notes):
         ob("R2", "no attempt starts from a dirty state", True)
     if any(e[0] in ("ADV", "SETPOS", "MATCH") for e in rec.events) and not any(r == "POS" for r, _ in rec.notes):
